@@ -934,13 +934,25 @@ def hash_rules(run, r_accept, r_same, r_publish, r_checked, r_allids, ast):
             if is_bucket(c0):
                 return ("truthy", 0, None)
             return None
-        tests = [n for n in astq.walk(inner["body"]) if n.get("k") == "IfStmt" and occupied_test(n["cond"])]
+        def bucket_cmps(c):
+            """comparisons of the probed bucket inside a condition: [(op, constant-or-None, other side)]"""
+            out = []
+            for x in astq.walk(c):
+                if x.get("k") == "BinaryOperator" and x.get("op") in ("!=", "=="):
+                    for a, b in ((x["c"][0], x["c"][1]), (x["c"][1], x["c"][0])):
+                        if is_bucket(a):
+                            out.append((x["op"], astq.strip(b).get("cv"), b))
+            if not out and is_bucket(astq.strip(c)):
+                out.append(("truthy", 0, None))
+            return out
+        tests = [n for n in astq.walk(inner["body"]) if n.get("k") == "IfStmt" and bucket_cmps(n["cond"])]
         fills = [n for n in astq.walk(f["body"]) if n.get("k") == "CallExpr" and (n.get("callee") or "").startswith("std::fill<") and any(
             x.get("k") == "DeclRefExpr" and x["ref"]["did"] == bparam for x in astq.walk(n))]
         if len(tests) != 1 or len(fills) != 1:
             run.broken.append("%s: collision test / bucket fill not recognised (%d, %d)" % (short(f), len(tests), len(fills)))
             continue
-        op, marker, _ = occupied_test(tests[0]["cond"])
+        cm = [t for t in bucket_cmps(tests[0]["cond"]) if t[1] is not None] or bucket_cmps(tests[0]["cond"])
+        op, marker, _ = cm[0]
         fillv = astq.strip(fills[0]["c"][3]).get("cv")
         ALLONES = (-1, 2 ** 64 - 1)
         okm = fillv in ALLONES and marker in ALLONES and op == "!="
@@ -949,35 +961,16 @@ def hash_rules(run, r_accept, r_same, r_publish, r_checked, r_allids, ast):
             run.violation(r_accept, "fast_perfect_hash::hash_initialize|empty-marker",
                           "buckets are filled with %s and tested with `%s %s`: the marker must be invalid_type in both places, any other value is a legal type id" % (fillv, op, marker), (f["file"], tests[0]["l"]))
 
-        def want(n):
-            if n.get("k") == "BinaryOperator" and n.get("op") == "=":
-                l = astq.strip(n["c"][0])
-                if l.get("k") == "DeclRefExpr" and l["ref"]["did"] == fd:
-                    return True
-                return is_bucket(l)
-            return False
-        res = {}
-        for occ in (True, False):
-            def decide(c, occ=occ):
-                t = occupied_test(c)
-                if t is None:
-                    return None
-                return occ if t[0] in ("!=", "truthy") else (not occ)
-            ps = astq.enum_paths(inner["body"], decide, want)
-            ev = set()
-            for p in ps:
-                for kind, n in p["events"]:
-                    l = astq.strip(n["c"][0])
-                    if l.get("k") == "DeclRefExpr":
-                        v = astq.strip(n["c"][1])
-                        ev.add("found=%s" % ("true" if v.get("v") else "false"))
-                    else:
-                        ev.add("bucket-write")
-            res[occ] = ev
-        oks = res[True] == {"found=false"} and res[False] == {"bucket-write"}
-        run.instance(r_accept, "%s: an occupied bucket clears `found` and is not overwritten; a free one is claimed" % short(f), (f["file"], tests[0]["l"]), ok=oks, detail={k: sorted(v) for k, v in res.items()})
+        tbl = hash_bucket_table(f)
+        if tbl is None:
+            run.broken.append("%s: scan body not classifiable over the states of the probed bucket" % short(f))
+            continue
+        # a bucket holding ANOTHER id clears the flag and is left alone; a free one is claimed. (A bucket that already holds the id
+        # being placed - a class repeated in the range - may be treated either way here; the decoder's rule C13 needs it tolerated.)
+        oks = tbl["other"] == {"found=false"} and tbl["free"] == {"bucket-write"} and tbl["same"] in ({"found=false"}, {"bucket-write"}, set())
+        run.instance(r_accept, "%s: a bucket occupied by another id clears `found` and is not overwritten; a free one is claimed" % short(f), (f["file"], tests[0]["l"]), ok=oks, detail={k_: sorted(v) for k_, v in tbl.items()})
         if not oks:
-            run.violation(r_accept, "fast_perfect_hash::hash_initialize|collision-branch", "on an occupied bucket the scan does %s, on a free one %s" % (sorted(res[True]), sorted(res[False])), (f["file"], tests[0]["l"]))
+            run.violation(r_accept, "fast_perfect_hash::hash_initialize|collision-branch", "on a bucket occupied by another id the scan does %s, on a free one %s, on one holding the same id %s" % (sorted(tbl["other"]), sorted(tbl["free"]), sorted(tbl["same"])), (f["file"], tests[0]["l"]))
         # accept: the only normal return is `if (found) { ...; return; }` after the scan
         byid, parent = astq.index_nodes(f)
         rets = [n for n in astq.walk(f["body"]) if n.get("k") == "ReturnStmt"]
@@ -2705,3 +2698,73 @@ def record_rules(run, rule, ast):
                 short(f)[:100], arg["ref"]["name"][:80], st), (f["file"], pb[0]["l"]))
     if not n:
         run.broken.append("no add_function instantiation with a recognisable registration record")
+
+
+
+# ---------------------------------------------------------------------------
+# (19) the hash search and repeated ids
+
+def hash_bucket_table(f):
+    """decision table of the scan body of hash_initialize over the three states of the probed bucket:
+    'free' (holds the empty marker), 'same' (already holds the id being placed), 'other' (holds another id).
+    -> {state: set of events 'bucket-write' / 'found=false'} or None when the body is not classifiable."""
+    loops = _idloops(f)
+    if len(loops) != 1:
+        return None
+    outer, inner = loops[0]
+    bparam = f["params"][2]["did"]
+    flags = [d for n in astq.walk(f["body"]) if n.get("k") == "DeclStmt" for d in n["decls"] if d["type"] == "bool" and not d.get("const")]
+    if not flags:
+        return None
+    fd = flags[0]["did"]
+    # the id being placed: a local of the inner loop body initialised by dereferencing the id iterator
+    ids = {d["did"] for n in astq.walk(inner["body"]) if n.get("k") == "DeclStmt" for d in n["decls"] if d.get("init") is not None and any(
+        x.get("k") in ("UnaryOperator", "CXXOperatorCallExpr") and (x.get("op") == "*" or x.get("oop") == "*") for x in astq.walk(d["init"]))}
+
+    def is_bucket(n):
+        n = astq.strip(n)
+        return n is not None and n.get("k") == "CXXOperatorCallExpr" and n.get("oop") == "[]" and astq.strip(n["c"][1]).get("k") == "DeclRefExpr" and astq.strip(n["c"][1])["ref"]["did"] == bparam
+
+    def ev(c, state):
+        c0 = astq.strip(c)
+        k = c0.get("k")
+        if k == "UnaryOperator" and c0.get("op") == "!":
+            v = ev(c0["c"][0], state)
+            return None if v is None else (not v)
+        if k == "BinaryOperator" and c0.get("op") in ("&&", "||"):
+            a, b = ev(c0["c"][0], state), ev(c0["c"][1], state)
+            if a is None or b is None:
+                return None
+            return (a and b) if c0["op"] == "&&" else (a or b)
+        if k == "BinaryOperator" and c0.get("op") in ("==", "!="):
+            for x, y in ((c0["c"][0], c0["c"][1]), (c0["c"][1], c0["c"][0])):
+                if is_bucket(x):
+                    y0 = astq.strip(y)
+                    if y0.get("k") == "DeclRefExpr" and y0["ref"].get("did") in ids:
+                        eq = state == "same"
+                    elif y0.get("cv") in (-1, 2 ** 64 - 1) or "cv" in y0:
+                        eq = state == "free"
+                    else:
+                        return None
+                    return eq if c0["op"] == "==" else (not eq)
+        return None
+
+    def want(n):
+        if n.get("k") == "BinaryOperator" and n.get("op") == "=":
+            l = astq.strip(n["c"][0])
+            return (l.get("k") == "DeclRefExpr" and l["ref"]["did"] == fd) or is_bucket(l)
+        return False
+    out = {}
+    for state in ("free", "same", "other"):
+        ps = astq.enum_paths(inner["body"], lambda c, state=state: ev(c, state), want)
+        evs = set()
+        for p in ps:
+            for _, n in p["events"]:
+                l = astq.strip(n["c"][0])
+                if l.get("k") == "DeclRefExpr":
+                    v = astq.strip(n["c"][1])
+                    evs.add("found=%s" % ("true" if v.get("v") else "false"))
+                else:
+                    evs.add("bucket-write")
+        out[state] = evs
+    return out
